@@ -19,15 +19,18 @@ partial def parseTy (j : Json) : JE GoTy := do
   | k => throw s!"bad type kind {k}"
 
 mutual
-/-- {"k":"basic","t":ty,"p":"json text"} | {"k":"inil"} | {"k":"nilptr","t":ty} | {"k":"ptr","v":…}
+/-- {"k":"basic","t":ty,"p":"json text"} | {"k":"inil"} | {"k":"nilptr","t":ty} | {"k":"ptr","a":id,"v":…}
     | {"k":"slice","t":ty,"nil":b,"vs":[…]} | {"k":"map","kt":ty,"vt":ty,"nil":b,"kvs":[[k,v]…]}
-    | {"k":"struct","n":name,"fs":[[f,v]…]} -/
-partial def parseVal (j : Json) : JE GoVal := do
+    | {"k":"struct","n":name,"fs":[[f,v]…]}
+    `a` is the identity of the pointer (address and pointee type as the harness numbers them):
+    the same `a` at two positions is one shared pointer.  The model works on the unfolding
+    (`LVal.erase`); `a` is used for the `coherent` / `shared` answers only. -/
+partial def parseVal (j : Json) : JE LVal := do
   match (← J.str j "k") with
   | "basic" => do pure (.basic (← parseTy (← J.field j "t")) (← J.str j "p"))
   | "inil" => pure .inil
   | "nilptr" => do pure (.nilptr (← parseTy (← J.field j "t")))
-  | "ptr" => do pure (.ptr (← parseVal (← J.field j "v")))
+  | "ptr" => do pure (.ptr (J.natD j "a" 0) (← parseVal (← J.field j "v")))
   | "slice" => do
       pure (.slice (← parseTy (← J.field j "t")) (J.boolD j "nil" false) (← parseVals (J.arrD j "vs")))
   | "map" => do
@@ -35,10 +38,10 @@ partial def parseVal (j : Json) : JE GoVal := do
               (← parseKVs (J.arrD j "kvs")))
   | "struct" => do pure (.struct (← J.str j "n") (← parseKVs (J.arrD j "fs")))
   | k => throw s!"bad value kind {k}"
-partial def parseVals : List Json → JE GoVals
+partial def parseVals : List Json → JE LVals
   | [] => pure .nil
   | x :: xs => do pure (.cons (← parseVal x) (← parseVals xs))
-partial def parseKVs : List Json → JE GoKVs
+partial def parseKVs : List Json → JE LKVs
   | [] => pure .nil
   | x :: xs => do
       match x with
@@ -158,10 +161,12 @@ def handle (c : Json) : JE Json := do
     | .ok v' => pure <| Json.mkObj [("dec", Json.str "ok"), ("v", renderVal v'), ("ty", .str (tyStr v'.typeOf))]
     | .error e => pure <| Json.mkObj [("dec", .str (errClass e))]
   | _ =>
-    let v ← parseVal (← J.field c "v")
+    let lv ← parseVal (← J.field c "v")
+    let v := lv.erase
     let hdr : List (String × Json) :=
-      [("ctxok", .bool ctx.ok), ("wt", .bool (v.wt ctx)), ("supported", .bool (Supported ctx J0 v))]
-    match enc ctx J0 F v with
+      [("ctxok", .bool ctx.ok), ("wt", .bool (v.wt ctx)), ("supported", .bool (Supported ctx J0 v)),
+       ("regd", .bool (v.regd ctx)), ("coherent", .bool lv.coherent), ("shared", (lv.sharedCount : Json))]
+    match marshalL ctx J0 F lv with
     | .error e => pure <| Json.mkObj (hdr ++ [("enc", Json.str (errClass e)), ("dec", Json.str "-")])
     | .ok i =>
       let hdr : List (String × Json) := hdr ++ [("enc", Json.str "ok"), ("is", renderIS i)]
